@@ -35,7 +35,7 @@ STD_OFFSET_H = {"America/Chicago": -6, "US/Pacific": -8, "Europe/London": 0, "Au
 LOOKALIKE = {"America/Chicago": ["America/Regina", "Etc/GMT+6"], "US/Pacific": ["America/Vancouver"],
              "Europe/London": ["Europe/Lisbon", "UTC", "Atlantic/Reykjavik"], "Australia/Sydney": ["Australia/Melbourne"],
              "Asia/Kolkata": ["Asia/Colombo"], "UTC": ["Atlantic/Reykjavik", "Europe/London"]}
-SPANS = {"day": 1, "week": 7, "month": 30, "partial": 150, "full": 365}
+SPANS = {"day": 1, "week": 7, "month": 30, "partial": 150, "full": 365, "long": 400}
 START_DAY = "2015-12-03"
 BLACKOUT_DAYS = 10
 
@@ -224,6 +224,8 @@ def _apply_tgap(temp: np.ndarray, per_day: int, g) -> np.ndarray:
 def build(recipe: dict):
     """Return dict(cls=<constructor name>, how="init"|"from_series", args=[...], kwargs={...}, inputs=[frames])."""
     fam = recipe["fam"]
+    if recipe.get("span") == "grid":
+        return _build_grid(recipe)
     if recipe.get("src") == "sample":
         return _build_sample(recipe)
     p = meter_params(recipe["mid"])
@@ -333,6 +335,28 @@ def build(recipe: dict):
                 if ghi is not None:
                     ghi = ghi[keep]
     return _hourly_ctor(recipe, hidx, y, temp_h, ghi, electric, obs)
+
+
+def _build_grid(recipe):
+    """A reporting frame whose daily temperatures are given explicitly (recipe["temps"]): sweeps far outside any
+    fitted range, and the exact balance points / segment limits of a stored model (daily and billing families)."""
+    temps = np.asarray(recipe["temps"], dtype="float64")
+    tz = recipe["tz"]
+    naive = pd.date_range("2017-01-01", periods=len(temps), freq="D")
+    days = pd.DatetimeIndex(naive.values).tz_localize(tz)
+    g = np.random.default_rng(_seed("grid", len(temps)))
+    y = 10.0 + g.random(len(temps))
+    if recipe["fam"] == "daily":
+        df = pd.DataFrame({"observed": y, "temperature": temps}, index=days)
+        return dict(cls="DailyReportingData", how="init", args=[df], kwargs={"is_electricity_data": True}, inputs=[df])
+    # billing: an hourly feed that is constant within each local day, bills of about a month
+    end = (days[-1].tz_localize(None) + pd.Timedelta(days=3)).tz_localize(tz)
+    hidx = pd.date_range(days[0], end, freq="h", inclusive="left")
+    per_day = pd.Series(temps, index=np.asarray(days.date))
+    th = per_day.reindex(np.asarray(hidx.date)).ffill().to_numpy()
+    temp_series = pd.Series(th, index=hidx, name="tempF")
+    return _billing_ctor(dict(recipe, role="reporting", entry="series", bill="monthly", mid=recipe.get("mid", 0)),
+                         days, y, temp_series, True, "present")
 
 
 def _daily_ctor(recipe, days, y, temp_series, electric, obs):
